@@ -29,7 +29,7 @@ PLAN = {
         "rely of the flusher: a single flusher thread (State::flush is only called from the forwarder thread); other threads only call increment/absolute (counter) or set/increment/decrement (gauge), whose step lists are themselves proved (c10_counter_*_guarantee_rg)",
         "environment steps are injected by stubs on core::sync::atomic::Atomic::<u64>::{load,swap,store,fetch_add} and Atomic::<bool>::{store,swap}; the stubs perform the operation through as_ptr() (trusted to be the std semantics of the op under SC)",
         "the ghost amount added per environment step is bounded by 2^96 (and the initial backlog by 2^100) only to keep the unwrapped u128 ghost sum from overflowing; the wrapped u64 arithmetic is unrestricted",
-        "histograms: AtomicHistogram::{record,flush,is_empty} delegate to metrics-util's AtomicBucket / AtomicSamplingReservoir (crossbeam-epoch; Kani ICE) -- 'every recorded value is sent in exactly one flush' is NOT claimed here (see C05/C16)",
+        "histograms: AtomicHistogram::{record,flush,is_empty} delegate to metrics-util's AtomicBucket / AtomicSamplingReservoir. 'Every recorded value is sent in exactly one flush' is claimed only as a USAGE contract (hist.verus.rs): record pushes into its own arm's storage, flush drains with the single atomic take-and-deliver operation (clear_with / consume) and never with clear() (discards) or data_with()/data() (re-delivers); that clear_with itself hands each value to exactly one clearing read is C05's scope and ASSUMED; R17 turns the callback closure (captures `f` by unique borrow) into a shim named after the bucket method",
         "State::flush (Verus): HashSet<Key> as an abstract set with the std contracts of insert/remove/contains; Registry::get_*_handles yields each registered key once (C06); Key::clone is the identity on the abstract key; PayloadWriter::write_* are recording stubs; tracing::error! and TelemetryUpdate are no-ops for the property",
         "SystemTime::now()/duration_since are uninterpreted stubs; ASSUMED: the system clock is not before 1970-01-01 (duration_since(UNIX_EPOCH) is Ok); only is_some() of the timestamp is specified",
         "declared rewrites in state.verus.rs: R2 (for -> loop/match over shim_next), R10 (SystemTime::UNIX_EPOCH -> shim_unix_epoch()), R11 (histogram section of State::flush replaced by a unit let: not under contract), R12 (Option<String>::as_deref -> shim, value irrelevant); tracing::error! expands to ()",
@@ -66,6 +66,9 @@ PLAN = {
     }],
     "verus": [
         {"template": "state.verus.rs", "tier": "quick", "rlimit": 300, "timeout": 900, "min_functions": 8},
+        # usage contract on AtomicHistogram::{record, flush, is_empty}: the flush path drains only with the bucket's atomic
+        # take-and-deliver operation (clear() / data_with() / data() there are failed call-site obligations)
+        {"template": "hist.verus.rs", "tier": "quick", "rlimit": 30, "min_functions": 3},
     ],
     "witnesses": [
         {"match": r"fn get_aggregation_timestamp/", "src": "witness_timestamp.rs", "crate": "metrics-exporter-dogstatsd", "file": STATE},
